@@ -8,7 +8,7 @@ import re
 import vlib
 
 KINDS = {
-    "C04": {"not_idle", "unaccounted", "waiters_not_zero_at_idle"},
+    "C04": {"not_idle", "unaccounted", "waiters_not_zero_at_idle", "stream_unattended"},
     "C01": {"commit_unacked", "frontier"},
     "C02": {"dup_commit", "order", "offset_order", "commit_of_dropped", "unaccounted", "dropped_and_committed",
             "drop_of_finished", "not_idle"},
@@ -51,7 +51,7 @@ def random_scenarios(ctx, n, family, start_run=1):
                       workers=rng.choice([1, 2, 3, 4]), batch=rng.choice([1, 2, 3]), single=rng.random() < 0.15,
                       lines=random_lines(rng, nev, rng.choice([1, 1, 2, 3]), rng.choice([["a"], ["a", "b"], ["a", "b", "c"]]),
                                          rng.choice([["P"], ["P", "D"], ["P", "D", "B"], ["P", "P", "D", "H", "C", "C"],
-                                                     ["P", "D", "R", "E"], ["P", "S", "D"], ["P", "S"]])))
+                                                     ["P", "D", "R", "E"], ["P", "S", "D"], ["P", "S"], ["P", "G", "C", "Q", "H"], ["G", "P", "Q"]])))
         elif family == "retry":       # C09: failures, with/without dead queue
             retry = rng.choice([0, 1, 2])
             sc = base(run, cap=rng.choice([4, 16]), workers=rng.choice([1, 2, 3]), batch=rng.choice([1, 2, 3]),
@@ -111,6 +111,32 @@ def window_scenarios(ctx, n, start_run):
         lines = [dict(id=i + 1, src=1, stream="a", cls=("H" if i == 0 else ctx.rng.choice(["C", "C", "P", "H"]))) for i in range(nev)]
         out.append(base(run, name="window-unblock-%d" % run, mode="random", window="unblock", cap=8, workers=1, batch=1, timeout_ms=3,
                         lines=lines, jitter=False, single=ctx.rng.random() < 0.5))
+    return out
+
+
+def attend_scenarios(ctx, n, start_run):
+    """K streams charged back to back while every processor that picks one stays parked in its first Do"""
+    out = []
+    for k in range(n):
+        run = start_run + k
+        K = ctx.rng.choice([2, 3, 4, 6])
+        lines = [dict(id=i + 1, src=i + 1, stream="a", cls="P") for i in range(K)]
+        out.append(base(run, name="attend-%d" % run, mode="random", window="attend", cap=16, workers=2, batch=1, lines=lines, jitter=False))
+    return out
+
+
+def detach_scenarios(ctx, n, start_run):
+    """a run flushed by a stream time-out, later an event that waits in a half-filled batch while its processor leaves the stream,
+    and another event put during that detach: the stream must be re-charged when the first one is committed"""
+    out = []
+    for k in range(n):
+        run = start_run + k
+        tail = [dict(cls="P", wait_ms=ctx.rng.choice([260, 320])), dict(cls="P", wait_ms=ctx.rng.choice([3, 10, 25]))]
+        if ctx.rng.random() < 0.5:
+            tail.append(dict(cls=ctx.rng.choice(["P", "D"]), wait_ms=ctx.rng.choice([0, 5])))
+        lines = [dict(id=1, src=1, stream="a", cls="H", wait_ms=0)] + [dict(id=i + 2, src=1, stream="a", **t) for i, t in enumerate(tail)]
+        out.append(base(run, name="timeout-then-detach-%d" % run, mode="random", cap=8, workers=ctx.rng.choice([1, 2]), batch=ctx.rng.choice([2, 3]),
+                        flush_ms=ctx.rng.choice([15, 40]), timeout_ms=ctx.rng.choice([5, 20]), lines=lines, jitter=False, single=ctx.rng.random() < 0.3))
     return out
 
 
